@@ -40,8 +40,9 @@ def surfaces(draw, n_max=8):
     out = []
     sid = 0
     labels = []
+    dense = draw(st.booleans())
     for _ in range(n):
-        sid += draw(st.integers(1, 12))
+        sid += draw(st.integers(1, 2 if dense else 12))
         if draw(st.integers(0, 11)) == 0:
             kind = draw(st.sampled_from(MACRO_KINDS))
             k, p, lab = draw(gen.macro_params(kind))
@@ -77,7 +78,19 @@ def level0_case(draw, tier='quick'):
         # let MCNP numbers and internally generated numbers interleave
         order = draw(st.permutations(list(range(len(cell_ids)))))
         cell_ids = [cell_ids[o] for o in order]
-    regions = [draw(gen.expression(ids, depth, fc)) for _ in range(n_cells)]
+    # helper cells in a universe that nothing fills: they are never converted
+    # but their regions can be used through #n, also inside #( ... )
+    helpers = []
+    n_help = draw(st.sampled_from([0, 0, 1, 2]))
+    hid = max(cell_ids)
+    for _ in range(n_help):
+        hid += draw(st.integers(1, 9))
+        helpers.append((hid, draw(gen.expression(ids, 2, fc))))
+    help_ids = [h for h, _e in helpers]
+    if helpers:
+        labels.append('helper-cells')
+    regions = [draw(gen.expression(ids, depth, fc, cell_ids=help_ids))
+               for _ in range(n_cells)]
     cells = []
     for i in range(n_cells):
         reg = regions[i]
@@ -134,6 +147,11 @@ def level0_case(draw, tier='quick'):
     imp_mode = draw(st.sampled_from(['card', 'card', 'data']))
     labels.append('imp:' + imp_mode)
     deck = md.new_deck()
+    if draw(st.integers(0, 2)) == 0:
+        # the order of the surface cards is free
+        surfs = [surfs[o] for o in
+                 draw(st.permutations(list(range(len(surfs)))))]
+        labels.append('surface-cards-shuffled')
     deck['surfaces'] = surfs
     for i, expr in enumerate(cells):
         matn = draw(st.sampled_from([0, 1, 1, 2]))
@@ -141,6 +159,11 @@ def level0_case(draw, tier='quick'):
                                                            '0.05']))
         imp = {'n': imps[i]} if imp_mode == 'card' else None
         deck['cells'].append(md.cell(cell_ids[i], matn, rho, expr, imp=imp))
+    for hid_, hexpr in helpers:
+        deck['cells'].append(md.cell(hid_, 0, None, hexpr,
+                                     imp={'n': 1} if imp_mode == 'card'
+                                     else None, u=77))
+        imps.append(1)
     if imp_mode == 'data':
         deck['imp_cards'] = {'n': {'values': [float(v) for v in imps]}}
     deck['materials'] = [{'id': 1, 'entries': [('13027', '1.0')]},
@@ -160,7 +183,8 @@ def level0_case(draw, tier='quick'):
 
 
 def strategy(tier):
-    return level0_case(tier)
+    from .c05 import with_options
+    return with_options(level0_case(tier))
 
 
 def budget(tier):
@@ -207,7 +231,7 @@ def check(case):
     locator = md.Locator(deck)
     box = semcheck.deck_box(deck)
     P = semcheck.make_points(locator, case['pseed'], n_pts, box)
-    res = conv.convert(text, mr.argv_of(deck))
+    res = conv.convert(text, mr.argv_of(deck, case.get('argv_extra') or []))
     loc = locator.locate(P)
     exp_in = (loc.count == 1) & ~loc.dead & ~loc.undec
     if not res.ok:
